@@ -165,7 +165,8 @@ TryEnd(s, e) ==
     IF vm.frames = <<>> \/ Len(vm.frames) # e.d THEN Reject(s1, "tryend: call stack size differs from the model")
     ELSE LET f == Top(vm)
              cs == IF f.catches = <<>> THEN <<>> ELSE Front(f.catches) IN
-         IF f.known /\ e.c # Len(cs) THEN Reject(s1, "tryend: catch point count differs from the model")
+         IF f.known /\ f.catches = <<>> THEN Reject(s1, "TryBalanced: a try block was left although no catch point is registered in the frame")
+         ELSE IF f.known /\ e.c # Len(cs) THEN Reject(s1, "tryend: catch point count differs from the model")
          ELSE SetVm(s1, e.vm, [vm EXCEPT !.frames[Len(vm.frames)].catches = cs])
 
 (* An instruction failed (e.s: error class, e.a: its ip).  The destination of the error is fixed now. *)
